@@ -24,8 +24,10 @@ def gen_cases(run: Run, n: int):
     cases = []
     g = B.Gen(rng, leak_p=0.15)
     while len(cases) < n:
+        # every other program is generated without side-effect leaks: such a program is legal and MUST build
+        g.leak_p = 0.0 if len(cases) % 2 == 0 else 0.15
         ins, outs = g.program()
-        cases.append(B.Case(ins, outs, rng.random() < 0.3, {}))
+        cases.append(B.Case(ins, outs, rng.random() < 0.3, {"legal": g.leak_p == 0.0}))
     return cases, g.hist
 
 
@@ -66,6 +68,11 @@ def run(run: Run) -> int:
     for i, c in enumerate(cases):
         out_hist[c.impl.split(" ")[1] if c.impl.startswith("ERR") else "model"] += 1
         if c.model_proto is None:
+            rank_unknown = isinstance(c.exc, ValueError) and "does not specify the shape" in str(c.exc)
+            if c.meta.get("legal") and not rank_unknown:
+                n_bad += 1
+                run.fail("impl", "C01/legal-program-does-not-build", f"a well-typed program without leaks does not build: {c.impl}: {str(c.exc)[:160]}",
+                         {"case": B.describe(c)})
             continue
         if c.refl and len(c.refl.graphs) > 1:
             distinct.add(c.impl)
